@@ -266,8 +266,9 @@ def gridsearch_facts(gam_cls):
     tail = body[body.index(cand) + 1:]
     need(len(tail) == 3, 'gridsearch: tail has %d statements' % len(tail))
     need(isinstance(tail[0], ast.If) and U(tail[0].test) == 'len(models) == 0' and U(tail[0].body[-1]) == 'return self', 'gridsearch: no-models exit')
-    need(U(tail[1]) == 'if keep_best:\n    self.set_params(deep=True, force=True, **best_model.get_params(deep=True))', 'gridsearch: keep_best copy: ' + U(tail[1]))
+    need(U(tail[1]) == 'if keep_best:\n    self.set_params(deep=True, force=True, **deepcopy(best_model.get_params(deep=True)))', 'gridsearch: keep_best copy: ' + U(tail[1]))
     F['keep_copies_best'] = True
+    F['keep_deepcopies'] = True      # self receives a deep COPY of the winner's attributes (no object shared with a returned candidate)
     need(U(tail[2]) == 'if return_scores:\n    return OrderedDict(zip(models, scores))\nelse:\n    return self', 'gridsearch: return shape: ' + U(tail[2]))
     F['return_scores_zip'] = True
     F['effects'] = effects_of(fn, cand)
@@ -309,8 +310,8 @@ def generate_text(repo):
          '     k_default_param := %s;' % coq_str(F['default_param']),
          '     k_init_inf := %s; k_seed_self := %s; k_cmp := %s; k_skip_valueerror := %s;' % (
              coq_bool(F['init_inf']), coq_bool(F['seed_self']), F['cmp'], coq_bool(F['skip_valueerror'])),
-         '     k_grid_product := %s; k_cartesian_lists := %s; k_keep_copies_best := %s; k_return_scores_zip := %s;' % (
-             coq_bool(F['grid_product']), coq_bool(F['cartesian_lists']), coq_bool(F['keep_copies_best']), coq_bool(F['return_scores_zip'])),
+         '     k_grid_product := %s; k_cartesian_lists := %s; k_keep_copies_best := %s; k_keep_deepcopies := %s; k_return_scores_zip := %s;' % (
+             coq_bool(F['grid_product']), coq_bool(F['cartesian_lists']), coq_bool(F['keep_copies_best']), coq_bool(F['keep_deepcopies']), coq_bool(F['return_scores_zip'])),
          '     k_effects :=\n  [ ' + ';\n    '.join(eff) + ' ] |}.', '',
          'Definition Gen_poisson_forwards : list string := %s.' % coq_list(map(coq_str, fw))]
     return '\n'.join(L) + '\n'
@@ -326,7 +327,7 @@ Definition Gen_combine_matches_model : bool := false.
 Definition Gen_gridsearch : gs_skel :=
   {| k_allowed := []; k_known_reject := ""; k_known_auto := ""; k_unknown_reject := ""; k_unknown_auto := ""; k_default_param := "";
      k_init_inf := false; k_seed_self := false; k_cmp := OGe; k_skip_valueerror := false; k_grid_product := false;
-     k_cartesian_lists := false; k_keep_copies_best := false; k_return_scores_zip := false; k_effects := [] |}.
+     k_cartesian_lists := false; k_keep_copies_best := false; k_keep_deepcopies := false; k_return_scores_zip := false; k_effects := [] |}.
 Definition Gen_poisson_forwards : list string := [].
 """
 
